@@ -314,7 +314,6 @@ func sliceLenLB(b *ssa.BasicBlock, base ssa.Value) (int64, string) {
 	return lb, why
 }
 
-
 // installRegexpResolver wires GlobalRegexpPattern to the AST of the loaded program.
 func installRegexpResolver(p *core.Program) {
 	cache := map[*ssa.Global]string{}
